@@ -1,7 +1,667 @@
 package main
 
-type atResult struct{}
+import (
+	"fmt"
+	"go/ast"
+	"go/token"
+	"go/types"
+	"sort"
+	"strings"
+)
 
-func (r *atResult) coq() string { return "" }
+// ---------------------------------------------------------------------------------------------
+// Access table (C33).  Every syntactic access to a field of the shared broker types in the
+// non-test files: the field path, the function, read / write, whether it goes through sync/atomic,
+// the locks held at the site (this frame's, plus those every caller holds at every call of an
+// unexported function) with a flag telling whether the lock belongs to the very object accessed,
+// and the goroutine roots from which the enclosing function is reachable.
+// The lock discipline itself (which field is protected how) is NOT here: it is the hand-written
+// declaration coq/Conc/Discipline.v, and the check is done by Coq.
+// ---------------------------------------------------------------------------------------------
 
-func analyseAccess(w *world) *atResult { return &atResult{} }
+// the shared types (fields of these types are access-tracked); value-typed struct fields nested
+// in them are followed (ClientProperties.Props.SessionExpiryInterval, ...)
+var sharedTypes = map[string]bool{
+	"Clients": true, "Client": true, "Inflight": true, "TopicsIndex": true, "particle": true, "particles": true,
+	"Subscriptions": true, "SharedSubscriptions": true, "InlineSubscriptions": true,
+	"InboundTopicAliases": true, "OutboundTopicAliases": true, "Hooks": true, "Server": true, "loop": true,
+	"packets.Packets": true, "system.Info": true,
+}
+
+// goroutine roots: entry functions
+var rootEntries = map[string][]string{
+	"H": {"Server.EstablishConnection", "Server.attachClient"}, // one per connection
+	"W": {"Client.WriteLoop"},                                  // one per connection
+	"E": {"Server.eventLoop"},                                  // one per server
+	"I": {"New", "Server.readStore"},                           // before anything else runs
+	// "A" = exported methods of Server other than EstablishConnection (callable by the embedding
+	// application and by hooks, from any goroutine): filled in below
+}
+
+type accKind int
+
+const (
+	accRead accKind = iota
+	accWrite
+	accReadWrite
+	accAtomicRead
+	accAtomicWrite
+	accAddr
+	accSkip // the field is an internally synchronised object used through its methods: no access recorded
+)
+
+type atLock struct {
+	Class string `json:"class"`
+	Mode  string `json:"mode"`
+	Own   bool   `json:"own"`
+}
+
+type atSite struct {
+	Path      []string `json:"path"`
+	Fn        string   `json:"fn"`
+	Base      string   `json:"base"`
+	Write     bool     `json:"write"`
+	Atomic    bool     `json:"atomic"`
+	Locks     []atLock `json:"locks"`
+	Roots     []string `json:"roots"`
+	Pos       string   `json:"pos"`
+	frameHeld []heldLock
+}
+
+type accCallEdge struct {
+	caller, callee string
+	held           []heldLock
+	recvExpr       string
+	callerRecv     string
+}
+
+type accFunc struct {
+	obj      *types.Func
+	recvName string
+}
+
+type accCollector struct {
+	w     *world
+	sites []*atSite
+	calls []accCallEdge
+	funcs map[string]accFunc
+	fvals []funcValue
+	notes []string
+
+	freshVars map[*types.Var]bool
+}
+
+type atResult struct {
+	Sites     []*atSite         `json:"sites"`
+	Notes     []string          `json:"notes"`
+	EntryHeld map[string]string `json:"entry_held"`
+	Roots     map[string]int    `json:"functions_per_root"`
+}
+
+func (a *accCollector) declare(fn string, obj *types.Func, recvName string) {
+	a.funcs[fn] = accFunc{obj, recvName}
+}
+
+func (a *accCollector) call(lw *lgWalker, callee string, held []heldLock) {
+	recv := ""
+	if lw.curCall != nil {
+		if sel, ok := lw.curCall.Fun.(*ast.SelectorExpr); ok {
+			recv = types.ExprString(sel.X)
+		}
+	}
+	a.calls = append(a.calls, accCallEdge{caller: lw.fn, callee: callee, held: copyHeld(held), recvExpr: recv, callerRecv: lw.recvName})
+}
+
+// scanStmt scans the expressions evaluated by the statement itself (not nested blocks: the walker
+// visits those, with the locks held there).
+func (a *accCollector) scanStmt(lw *lgWalker, s ast.Stmt, held []heldLock) {
+	switch x := s.(type) {
+	case *ast.ExprStmt:
+		a.scan(lw, x.X, accRead, held)
+	case *ast.AssignStmt:
+		k := accWrite
+		if x.Tok != token.ASSIGN && x.Tok != token.DEFINE {
+			k = accReadWrite
+		}
+		for _, e := range x.Lhs {
+			a.scan(lw, e, k, held)
+		}
+		for _, e := range x.Rhs {
+			a.scan(lw, e, accRead, held)
+		}
+	case *ast.IncDecStmt:
+		a.scan(lw, x.X, accReadWrite, held)
+	case *ast.DeclStmt:
+		a.scan(lw, x.Decl, accRead, held)
+	case *ast.SendStmt:
+		a.scan(lw, x.Chan, accRead, held)
+		a.scan(lw, x.Value, accRead, held)
+	case *ast.ReturnStmt:
+		for _, e := range x.Results {
+			a.scan(lw, e, accRead, held)
+		}
+	case *ast.GoStmt:
+		a.scanCallOperands(lw, x.Call, held)
+	case *ast.DeferStmt:
+		a.scanCallOperands(lw, x.Call, held)
+	case *ast.IfStmt:
+		a.scan(lw, x.Cond, accRead, held)
+	case *ast.ForStmt:
+		a.scan(lw, x.Cond, accRead, held)
+	case *ast.RangeStmt:
+		a.scan(lw, x.X, accRead, held)
+		if x.Tok == token.ASSIGN {
+			a.scan(lw, x.Key, accWrite, held)
+			a.scan(lw, x.Value, accWrite, held)
+		}
+	case *ast.SwitchStmt:
+		a.scan(lw, x.Tag, accRead, held)
+	}
+}
+
+func (a *accCollector) scanCallOperands(lw *lgWalker, c *ast.CallExpr, held []heldLock) {
+	if _, ok := c.Fun.(*ast.FuncLit); !ok {
+		a.scan(lw, c, accRead, held)
+		return
+	}
+	for _, e := range c.Args {
+		a.scan(lw, e, accRead, held)
+	}
+}
+
+func pkgPathOf(t types.Type) string {
+	if n, ok := deref(t).(*types.Named); ok && n.Obj().Pkg() != nil {
+		return n.Obj().Pkg().Path()
+	}
+	return ""
+}
+
+// scan visits an expression evaluated with access kind k for its outermost location.
+func (a *accCollector) scan(lw *lgWalker, n ast.Node, k accKind, held []heldLock) {
+	if n == nil {
+		return
+	}
+	info := lw.p.info
+	switch x := n.(type) {
+	case *ast.FuncLit:
+		return // visited by the lock walker as a closure
+	case *ast.ParenExpr:
+		a.scan(lw, x.X, k, held)
+		return
+	case *ast.SelectorExpr:
+		if sel := info.Selections[x]; sel != nil && sel.Kind() == types.FieldVal {
+			a.chain(lw, x, k, held)
+			return
+		}
+		a.scan(lw, x.X, accRead, held)
+		return
+	case *ast.IndexExpr:
+		// element of a map / slice held in a field: a write to the element is a write to the container
+		a.scan(lw, x.X, k, held)
+		a.scan(lw, x.Index, accRead, held)
+		return
+	case *ast.StarExpr:
+		a.scan(lw, x.X, accRead, held)
+		return
+	case *ast.UnaryExpr:
+		if x.Op == token.AND {
+			a.scan(lw, x.X, accAddr, held)
+			return
+		}
+		a.scan(lw, x.X, accRead, held)
+		return
+	case *ast.CallExpr:
+		a.callExpr(lw, x, held)
+		return
+	case *ast.KeyValueExpr:
+		a.scan(lw, x.Value, accRead, held)
+		return
+	}
+	ast.Inspect(n, func(c ast.Node) bool {
+		if c == nil || c == n {
+			return true
+		}
+		switch c.(type) {
+		case ast.Expr:
+			a.scan(lw, c, accRead, held)
+			return false
+		}
+		return true
+	})
+}
+
+func (a *accCollector) callExpr(lw *lgWalker, c *ast.CallExpr, held []heldLock) {
+	info := lw.p.info
+	// sync/atomic functions: atomic.AddInt64(&x.f, ..)
+	if sel, ok := c.Fun.(*ast.SelectorExpr); ok {
+		if f, ok := info.Uses[sel.Sel].(*types.Func); ok && f.Pkg() != nil && f.Pkg().Path() == "sync/atomic" && info.Selections[sel] == nil {
+			k := accAtomicWrite
+			if strings.HasPrefix(f.Name(), "Load") {
+				k = accAtomicRead
+			}
+			for i, arg := range c.Args {
+				if u, ok := arg.(*ast.UnaryExpr); ok && i == 0 && u.Op == token.AND {
+					a.scan(lw, u.X, k, held)
+				} else {
+					a.scan(lw, arg, accRead, held)
+				}
+			}
+			return
+		}
+		if s := info.Selections[sel]; s != nil && s.Kind() == types.MethodVal {
+			// method call: the receiver expression
+			rt := info.Types[sel.X].Type
+			switch {
+			case pkgPathOf(rt) == "sync/atomic":
+				k := accAtomicWrite
+				if sel.Sel.Name == "Load" {
+					k = accAtomicRead
+				}
+				a.scan(lw, sel.X, k, held)
+			case pkgPathOf(rt) == "sync":
+				// internally synchronised object (Once, WaitGroup, Mutex): only the path leading to it is read
+				if _, isPtr := rt.(*types.Pointer); isPtr {
+					a.scan(lw, sel.X, accRead, held)
+				} else {
+					a.scan(lw, sel.X, accSkip, held)
+				}
+			default:
+				_, isPtr := rt.(*types.Pointer)
+				if !isPtr && a.ownsLock(rt) {
+					// value field with its own mutex (particles): the callee locks; no access here
+					a.scan(lw, sel.X, accSkip, held)
+				} else {
+					a.scan(lw, sel.X, accRead, held)
+				}
+			}
+			for _, arg := range c.Args {
+				a.scan(lw, arg, accRead, held)
+			}
+			return
+		}
+	}
+	if id, ok := c.Fun.(*ast.Ident); ok {
+		if b, ok := info.Uses[id].(*types.Builtin); ok {
+			switch b.Name() {
+			case "delete", "copy", "clear":
+				for i, arg := range c.Args {
+					if i == 0 {
+						a.scan(lw, arg, accWrite, held)
+					} else {
+						a.scan(lw, arg, accRead, held)
+					}
+				}
+				return
+			}
+		}
+	}
+	if _, ok := c.Fun.(*ast.FuncLit); !ok {
+		a.scan(lw, c.Fun, accRead, held)
+	}
+	for _, arg := range c.Args {
+		a.scan(lw, arg, accRead, held)
+	}
+}
+
+func (a *accCollector) ownsLock(t types.Type) bool {
+	st, ok := deref(t).Underlying().(*types.Struct)
+	if !ok {
+		return false
+	}
+	for i := 0; i < st.NumFields(); i++ {
+		if isSyncType(st.Field(i).Type(), "Mutex", "RWMutex") {
+			return true
+		}
+	}
+	return false
+}
+
+// chain handles a maximal chain of value-field selections  base.f1.f2...fn  (memory inside the
+// object designated by base).
+func (a *accCollector) chain(lw *lgWalker, e *ast.SelectorExpr, k accKind, held []heldLock) {
+	info := lw.p.info
+	// collect selectors from the outside in, as long as the inner selection is a value-typed field
+	var sels []*ast.SelectorExpr
+	cur := e
+	for {
+		sels = append(sels, cur)
+		inner, ok := cur.X.(*ast.SelectorExpr)
+		if !ok {
+			break
+		}
+		is := info.Selections[inner]
+		if is == nil || is.Kind() != types.FieldVal {
+			break
+		}
+		if _, isPtr := is.Type().(*types.Pointer); isPtr {
+			break
+		}
+		if _, isStruct := is.Type().Underlying().(*types.Struct); !isStruct {
+			break
+		}
+		cur = inner
+	}
+	base := cur.X
+	baseT := info.Types[base].Type
+	owner := a.w.typeName(baseT)
+	// field names from the inside out (embedded promotions expanded)
+	var names []string
+	for i := len(sels) - 1; i >= 0; i-- {
+		s := info.Selections[sels[i]]
+		t := deref(s.Recv())
+		for _, idx := range s.Index() {
+			st, ok := t.Underlying().(*types.Struct)
+			if !ok {
+				break
+			}
+			f := st.Field(idx)
+			names = append(names, f.Name())
+			t = deref(f.Type())
+		}
+	}
+	if sharedTypes[owner] {
+		last := info.Selections[e]
+		lt := last.Type()
+		skip := false
+		if (pkgPathOf(lt) == "sync" && k != accWrite) || k == accSkip {
+			skip = true // mutex / once / waitgroup fields used through their methods
+		}
+		if id, ok := base.(*ast.Ident); ok && a.fresh(lw, id) {
+			skip = true // object created in this very function and not yet visible to anyone else
+		}
+		if !skip {
+			site := &atSite{Path: append([]string{owner}, names...), Fn: lw.fn, Base: types.ExprString(base), Pos: a.w.pos(e.Sel.Pos()), frameHeld: copyHeld(held)}
+			switch k {
+			case accRead:
+			case accWrite:
+				site.Write = true
+			case accReadWrite:
+				site.Write = true
+			case accAtomicRead:
+				site.Atomic = true
+			case accAtomicWrite:
+				site.Atomic, site.Write = true, true
+			case accAddr:
+				site.Write = true
+				a.notes = append(a.notes, fmt.Sprintf("%s: %s: ADDR address of %s taken (counted as a write)", site.Pos, lw.fn, strings.Join(site.Path, ".")))
+			}
+			a.sites = append(a.sites, site)
+		}
+	}
+	a.scan(lw, base, accRead, held)
+}
+
+// fresh: the identifier is a local variable defined (:=) from a composite literal or from a
+// constructor / copier (New*, new*, Clone, Copy): the object is not yet shared.
+func (a *accCollector) fresh(lw *lgWalker, id *ast.Ident) bool {
+	obj, ok := lw.p.info.Uses[id].(*types.Var)
+	if !ok || obj.IsField() {
+		return false
+	}
+	if a.freshVars == nil {
+		a.freshVars = map[*types.Var]bool{}
+		for _, p := range a.w.scope {
+			for _, f := range p.files {
+				ast.Inspect(f, func(n ast.Node) bool {
+					as, ok := n.(*ast.AssignStmt)
+					if !ok || as.Tok != token.DEFINE || len(as.Lhs) != len(as.Rhs) {
+						return true
+					}
+					for i, l := range as.Lhs {
+						li, ok := l.(*ast.Ident)
+						if !ok {
+							continue
+						}
+						v, ok := p.info.Defs[li].(*types.Var)
+						if !ok {
+							continue
+						}
+						r := as.Rhs[i]
+						if u, ok := r.(*ast.UnaryExpr); ok && u.Op == token.AND {
+							r = u.X
+						}
+						switch x := r.(type) {
+						case *ast.CompositeLit:
+							a.freshVars[v] = true
+						case *ast.CallExpr:
+							name := ""
+							switch fn := x.Fun.(type) {
+							case *ast.Ident:
+								name = fn.Name
+							case *ast.SelectorExpr:
+								name = fn.Sel.Name
+							}
+							if strings.HasPrefix(name, "New") || strings.HasPrefix(name, "new") || name == "Clone" || name == "Copy" {
+								a.freshVars[v] = true
+							}
+						}
+					}
+					return true
+				})
+			}
+		}
+	}
+	return a.freshVars[obj]
+}
+
+func isExportedName(n string) bool { return n != "" && n[0] >= 'A' && n[0] <= 'Z' }
+
+func analyseAccess(w *world) *atResult {
+	acc := &accCollector{w: w, funcs: map[string]accFunc{}}
+	lg := analyseLockGraphAcc(w, acc)
+	res := &atResult{EntryHeld: map[string]string{}, Roots: map[string]int{}}
+
+	// ---- locks every caller holds at every call of an unexported, never-escaping function ----
+	usedAsValue := map[string]bool{}
+	for _, fv := range acc.fvals {
+		usedAsValue[fv.name] = true
+	}
+	callers := map[string][]accCallEdge{}
+	for _, c := range acc.calls {
+		callers[c.callee] = append(callers[c.callee], c)
+	}
+	type el struct {
+		class, mode string
+		recv        bool
+	}
+	elKey := func(e el) string { return fmt.Sprintf("%s/%s/%v", e.class, e.mode, e.recv) }
+	entry := map[string]map[string]el{} // nil = not yet known (top)
+	candidate := func(fn string) bool {
+		base := strings.SplitN(fn, "$", 2)[0]
+		f, ok := acc.funcs[base]
+		if !ok || fn != base {
+			return false
+		}
+		return !f.obj.Exported() && !usedAsValue[fn] && len(callers[fn]) > 0
+	}
+	for changed, round := true, 0; changed && round < 50; round++ {
+		changed = false
+		for fn := range acc.funcs {
+			if !candidate(fn) {
+				continue
+			}
+			var inter map[string]el
+			unknown := false
+			for _, c := range callers[fn] {
+				cur := map[string]el{}
+				for _, h := range c.held {
+					e := el{h.class, h.mode, h.key == c.recvExpr}
+					cur[elKey(e)] = e
+				}
+				if candidate(c.caller) {
+					ce := entry[c.caller]
+					if ce == nil {
+						unknown = true // caller not resolved yet: skip this edge in this round
+						continue
+					}
+					for _, e := range ce {
+						e2 := el{e.class, e.mode, e.recv && c.recvExpr == c.callerRecv}
+						cur[elKey(e2)] = e2
+					}
+				}
+				if inter == nil {
+					inter = cur
+				} else {
+					for k := range inter {
+						if _, ok := cur[k]; !ok {
+							delete(inter, k)
+						}
+					}
+				}
+			}
+			if inter == nil {
+				if unknown {
+					continue
+				}
+				inter = map[string]el{}
+			}
+			old := entry[fn]
+			if old == nil || len(old) != len(inter) {
+				entry[fn] = inter
+				changed = true
+			}
+		}
+	}
+	for fn, m := range entry {
+		if len(m) > 0 {
+			var ks []string
+			for k := range m {
+				ks = append(ks, k)
+			}
+			sort.Strings(ks)
+			res.EntryHeld[fn] = strings.Join(ks, ", ")
+		}
+	}
+
+	// ---- goroutine roots: reachability in the call graph ----
+	succ := map[string][]string{}
+	for _, c := range acc.calls {
+		succ[c.caller] = append(succ[c.caller], c.callee)
+	}
+	// closures analysed as part of their function share its roots; go-closures are their own roots
+	entries := map[string][]string{}
+	for r, es := range rootEntries {
+		entries[r] = append([]string{}, es...)
+	}
+	for fn, f := range acc.funcs {
+		if strings.HasPrefix(fn, "Server.") && f.obj.Exported() && fn != "Server.EstablishConnection" {
+			entries["A"] = append(entries["A"], fn)
+		}
+	}
+	reach := map[string]map[string]bool{}
+	for r, es := range entries {
+		seen := map[string]bool{}
+		stack := append([]string{}, es...)
+		for len(stack) > 0 {
+			f := stack[len(stack)-1]
+			stack = stack[:len(stack)-1]
+			if seen[f] {
+				continue
+			}
+			seen[f] = true
+			stack = append(stack, succ[f]...)
+		}
+		reach[r] = seen
+		res.Roots[r] = len(seen)
+	}
+	rootsOf := func(fn string) []string {
+		base := fn
+		if i := strings.Index(fn, "$lit"); i >= 0 {
+			base = fn[:i] // a closure value runs where its function runs (or where it is called: covered by the call edges)
+		}
+		var rs []string
+		for _, r := range []string{"A", "E", "H", "I", "W"} {
+			if reach[r][fn] || reach[r][base] {
+				rs = append(rs, r)
+			}
+		}
+		if strings.Contains(fn, "$go") && len(rs) == 0 {
+			rs = []string{"G"}
+		}
+		if len(rs) == 0 {
+			rs = []string{"X"} // reachable from no known root: exported API of the type, callable from anywhere
+		}
+		return rs
+	}
+
+	// ---- finish the sites ----
+	for _, s := range acc.sites {
+		locks := map[string]atLock{}
+		add := func(l atLock) {
+			k := fmt.Sprintf("%s/%s", l.Class, l.Mode)
+			if old, ok := locks[k]; !ok || (l.Own && !old.Own) {
+				locks[k] = l
+			}
+		}
+		for _, h := range s.frameHeld {
+			add(atLock{h.class, h.mode, h.key == s.Base})
+		}
+		declFn := strings.SplitN(s.Fn, "$", 2)[0]
+		if m := entry[declFn]; m != nil && !strings.Contains(s.Fn, "$go") {
+			f := acc.funcs[declFn]
+			for _, e := range m {
+				add(atLock{e.class, e.mode, e.recv && f.recvName != "" && s.Base == f.recvName})
+			}
+		}
+		var ks []string
+		for k := range locks {
+			ks = append(ks, k)
+		}
+		sort.Strings(ks)
+		for _, k := range ks {
+			s.Locks = append(s.Locks, locks[k])
+		}
+		s.Roots = rootsOf(s.Fn)
+	}
+	key := func(s *atSite) string {
+		var ls []string
+		for _, l := range s.Locks {
+			ls = append(ls, fmt.Sprintf("%s/%s/%v", l.Class, l.Mode, l.Own))
+		}
+		return fmt.Sprintf("%s|%s|%v|%v|%s|%s", strings.Join(s.Path, "."), s.Fn, s.Write, s.Atomic, strings.Join(ls, ","), strings.Join(s.Roots, ","))
+	}
+	sort.SliceStable(acc.sites, func(i, j int) bool { return key(acc.sites[i]) < key(acc.sites[j]) })
+	for i, s := range acc.sites {
+		if i > 0 && key(s) == key(acc.sites[i-1]) {
+			continue
+		}
+		res.Sites = append(res.Sites, s)
+	}
+	res.Notes = append(acc.notes, lg.Notes...)
+	sort.Strings(res.Notes)
+	return res
+}
+
+func (r *atResult) coq() string {
+	var b strings.Builder
+	b.WriteString("(* GENERATED by harness/cmd/astx (access) from the Go sources of mochi-mqtt/server; do not edit.\n")
+	b.WriteString("   One record per syntactic access to a field of the shared broker types (non-test files):\n")
+	b.WriteString("   field path, function, write?, through sync/atomic?, locks held (class, mode, lock of the accessed\n")
+	b.WriteString("   object itself?), goroutine roots reaching the function (H connection handler, W write loop,\n")
+	b.WriteString("   E event loop, A API caller, I initialisation, G other spawned goroutine, X no known root). *)\n")
+	b.WriteString("From Coq Require Import List String.\nFrom MV Require Import Conc.Locks Conc.Discipline.\nImport ListNotations.\nOpen Scope string_scope.\n\n")
+	b.WriteString("Definition tbl : access_table := [\n")
+	for i, s := range r.Sites {
+		sep := ";"
+		if i == len(r.Sites)-1 {
+			sep = ""
+		}
+		var ps, ls, rs []string
+		for _, p := range s.Path {
+			ps = append(ps, coqString(p))
+		}
+		for _, l := range s.Locks {
+			ls = append(ls, fmt.Sprintf("(%s, %s, %v)", coqString(l.Class), l.Mode, l.Own))
+		}
+		for _, x := range s.Roots {
+			rs = append(rs, "R"+x)
+		}
+		fmt.Fprintf(&b, "  mk_asite [%s] %s %v %v [%s] [%s]%s\n", strings.Join(ps, "; "), coqString(s.Fn), s.Write, s.Atomic,
+			strings.Join(ls, "; "), strings.Join(rs, "; "), sep)
+	}
+	b.WriteString("].\n\n")
+	b.WriteString("(* the engine of hx race: race reports are classified against the declaration and this table *)\n")
+	b.WriteString("(* ENGINE race Gen.AccessTable.race_engine *)\n")
+	b.WriteString("Definition race_engine := race_engine_with decl tbl.\n")
+	return b.String()
+}
